@@ -11,7 +11,7 @@ LAKE_TARGETS = ["Moclo.Props.C20", "Moclo.Tables.Registries"]
 THEOREMS = ["Moclo.C20." + t for t in ["lookup_absent", "setdefault_keys", "setdefault_lookup", "add_spec",
                                        "combine_spec", "len_eq_keys", "iterated_key_found", "embedded_coherent", "resistance_from_table", "resistance_known",
                                        "dir_lookup_iff_iterated", "dir_item_carries_key", "dir_keys_case_independent",
-                                       "dir_subdirectories_ignored", "dir_keys_nodup"]]
+                                       "dir_subdirectories_ignored", "dir_plasmid_files_listed", "dir_keys_nodup"]]
 # reductions under which a failing case stays a case of this property (see shrink.py)
 SHRINK = {"lists": ["members", "real_members", "files", "dirs", "junk", "labels"], "keep_one": []}
 RULE = ("the five embedded registries, every item (exhaustive); in-memory directories of typed GenBank plasmids "
